@@ -106,6 +106,13 @@ type schedShared struct {
 	atomics map[string]map[string]bool
 	// possible net deltas the other threads can have applied: thread -> cell -> values
 	deltas map[string]map[string][]int64
+	// per reader thread and cell: for every OTHER thread, the delta sequences of its traces
+	seqs map[string]map[string][]otherSeqs
+}
+
+type otherSeqs struct {
+	Thread string
+	Seqs   [][]int64 // one delta sequence per trace of that thread
 }
 
 type threadCtxFull struct {
@@ -559,6 +566,9 @@ func (in *Interp) declareThread(fr *frame, name string, fn Value) {
 		if sh.deltas != nil {
 			th.deltas = sh.deltas[name]
 		}
+		if sh.seqs != nil {
+			th.seqs = sh.seqs[name]
+		}
 	}
 	if th.cands == nil {
 		th.cands = map[string][]rfCand{}
@@ -567,6 +577,7 @@ func (in *Interp) declareThread(fr *frame, name string, fn Value) {
 		th.atomics = map[string]bool{}
 	}
 	in.thread = th
+	in.sev(&SEvent{Kind: "user", Obj: "start"})
 	status := "done"
 	msg := ""
 	func() {
@@ -746,13 +757,20 @@ func runSchedOne(l *Loaded, fn *ssa.Function, params map[string]int, workers, ti
 			ex := &Explorer{L: l, Fn: fn, Params: p, Workers: workers, TimeoutMs: timeoutMs, Verbose: false}
 			ex.schedShared = shared
 			ex.schedNames = &names
-			ex.MaxPaths = 3000
+			ex.MaxPaths = 1500
 			r := ex.Run()
 			if os.Getenv("VERIF_SCHED_DEBUG") != "" {
-				fmt.Printf("  [sched] round %d thread %d: paths=%d traces=%d wall=%.1fs cands=%d\n", round, ti, r.Paths, len(r.Traces), r.Wall.Seconds(), len(shared.cands[names[ti]]))
+				st := map[string]int{}
+				for _, t := range r.Traces {
+					st[t.Status]++
+				}
+				fmt.Printf("  [sched] round %d thread %d: paths=%d traces=%d %v wall=%.1fs cands=%d\n", round, ti, r.Paths, len(r.Traces), st, r.Wall.Seconds(), len(shared.cands[names[ti]]))
 			}
 			if r.MaxPaths {
-				res.EngineErrors["phase A path budget exhausted (read-from forks)"]++
+				if res.Undecided == nil {
+					res.Undecided = map[string]int{}
+				}
+				res.Undecided["phase A path budget exhausted (read-from / atomic forks)"]++
 			}
 			res.Paths += r.Paths
 			res.Steps += r.Steps
@@ -786,14 +804,28 @@ func runSchedOne(l *Loaded, fn *ssa.Function, params map[string]int, workers, ti
 				nthreads = len(names)
 			}
 			tt := r.Traces
-			sort.Slice(tt, func(i, j int) bool { return tt[i].sig() < tt[j].sig() })
+			sort.Slice(tt, func(i, j int) bool {
+				di, dj := tt[i].Status == "done", tt[j].Status == "done"
+				if di != dj {
+					return !di // traces that end blocked / in a self re-lock first
+				}
+				return tt[i].sig() < tt[j].sig()
+			})
+			// blocked traces first (each part spread over its skeletons)
+			nb := 0
+			for nb < len(tt) && tt[nb].Status != "done" {
+				nb++
+			}
+			tt = append(diversify(tt[:nb:nb]), diversify(tt[nb:])...)
 			for i, t := range tt {
 				t.ID = i
 			}
 			traces = append(traces, tt)
 		}
-		// candidates for the next round
-		shared = buildCandidates(names, traces)
+		// candidates for the next round (accumulated over the rounds: monotone, so the iteration converges)
+		nsh := buildCandidates(names, traces)
+		mergeCandidates(nsh, shared)
+		shared = nsh
 		sig := candSig(shared)
 		if sig == prevSig {
 			converged = true
@@ -923,6 +955,37 @@ func buildCandidates(names []string, traces [][]*ThreadTrace) *schedShared {
 			}
 			for c := range atom[o] {
 				sh.atomics[th][c] = true
+			}
+		}
+	}
+	// delta sequences per trace
+	sh.seqs = map[string]map[string][]otherSeqs{}
+	for ti := range traces {
+		th := names[ti]
+		sh.seqs[th] = map[string][]otherSeqs{}
+		for c := range sh.atomics[th] {
+			for tj, tt := range traces {
+				if tj == ti {
+					continue
+				}
+				o := otherSeqs{Thread: names[tj]}
+				seenSeq := map[string]bool{}
+				for _, t := range tt {
+					var seq []int64
+					for _, e := range t.Events {
+						if e.Kind == "rmw" && e.Obj == c {
+							seq = append(seq, e.Delta)
+						}
+					}
+					k := fmt.Sprint(seq)
+					if !seenSeq[k] {
+						seenSeq[k] = true
+						o.Seqs = append(o.Seqs, seq)
+					}
+				}
+				if len(o.Seqs) > 0 && len(o.Seqs) < 200 {
+					sh.seqs[th][c] = append(sh.seqs[th][c], o)
+				}
 			}
 		}
 	}
@@ -1198,6 +1261,49 @@ func lockSig(l map[string]lockRef) string {
 // constrainX restricts the symbolic net delta of the other threads to the
 // values their traces can actually produce (prefix sums of their RMW deltas).
 func (in *Interp) constrainX(cell string, x *Term) {
+	th := in.thread
+	tc := in.tc
+	if os2 := th.seqs[cell]; len(os2) > 0 {
+		// X = sum over the other threads of prefixSum[trace][P], with P (how many of that
+		// thread's RMWs on this cell precede) non-decreasing along this thread's program order
+		if th.prevP == nil {
+			th.prevP, th.trVar = map[string]*Term{}, map[string]*Term{}
+		}
+		sum := tc.BV(x.W, 0)
+		all := tc.True
+		for _, o := range os2 {
+			tr := th.trVar[o.Thread]
+			if tr == nil {
+				tr = tc.Var("TR_"+th.full.name+"_"+o.Thread, 8)
+				th.trVar[o.Thread] = tr
+				all = tc.And(all, tc.Cmp(OpUlt, tr, tc.BV(8, uint64(len(o.Seqs)))))
+			}
+			in.path.nvars++
+			p := tc.Var(fmt.Sprintf("P_%s_%d", th.full.name, in.path.nvars), 8)
+			key := cell + "|" + o.Thread
+			if pp := th.prevP[key]; pp != nil {
+				all = tc.And(all, tc.Cmp(OpUle, pp, p))
+			}
+			th.prevP[key] = p
+			val := tc.BV(x.W, 0)
+			ok := tc.False
+			for ti, seq := range o.Seqs {
+				s := int64(0)
+				for k := 0; k <= len(seq); k++ {
+					if k > 0 {
+						s += seq[k-1]
+					}
+					cond := tc.And(tc.Eq(tr, tc.BV(8, uint64(ti))), tc.Eq(p, tc.BV(8, uint64(k))))
+					val = tc.Ite(cond, tc.BV(x.W, uint64(s)), val)
+					ok = tc.Or(ok, cond)
+				}
+			}
+			all = tc.And(all, ok)
+			sum = tc.Bin(OpAdd, sum, val)
+		}
+		in.assume(tc.And(all, tc.Eq(x, sum)))
+		return
+	}
 	vals := in.thread.deltas[cell]
 	if len(vals) == 0 {
 		in.addPC(in.tc.Eq(x, in.tc.BV(x.W, 0)))
@@ -1208,4 +1314,121 @@ func (in *Interp) constrainX(cell string, x *Term) {
 		c = in.tc.Or(c, in.tc.Eq(x, in.tc.BV(x.W, uint64(v))))
 	}
 	in.addPC(c)
+}
+
+// mergeCandidates adds the candidates, atomic cells and delta sequences of
+// the previous round (old) to the new set.
+func mergeCandidates(nw, old *schedShared) {
+	if old == nil {
+		return
+	}
+	for th, m := range old.cands {
+		if nw.cands[th] == nil {
+			nw.cands[th] = map[string][]rfCand{}
+		}
+		for c, l := range m {
+			have := map[string]bool{}
+			for _, x := range nw.cands[th][c] {
+				have[x.ID+lockSig(x.Locks)] = true
+			}
+			for _, x := range l {
+				if !have[x.ID+lockSig(x.Locks)] {
+					nw.cands[th][c] = append(nw.cands[th][c], x)
+				}
+			}
+		}
+	}
+	for th, m := range old.atomics {
+		if nw.atomics[th] == nil {
+			nw.atomics[th] = map[string]bool{}
+		}
+		for c := range m {
+			nw.atomics[th][c] = true
+		}
+	}
+	for th, m := range old.seqs {
+		if nw.seqs == nil {
+			nw.seqs = map[string]map[string][]otherSeqs{}
+		}
+		if nw.seqs[th] == nil {
+			nw.seqs[th] = map[string][]otherSeqs{}
+		}
+		for c, l := range m {
+			for _, o := range l {
+				found := false
+				for i := range nw.seqs[th][c] {
+					if nw.seqs[th][c][i].Thread == o.Thread {
+						found = true
+						have := map[string]bool{}
+						for _, s := range nw.seqs[th][c][i].Seqs {
+							have[fmt.Sprint(s)] = true
+						}
+						for _, s := range o.Seqs {
+							if !have[fmt.Sprint(s)] {
+								nw.seqs[th][c][i].Seqs = append(nw.seqs[th][c][i].Seqs, s)
+							}
+						}
+					}
+				}
+				if !found {
+					nw.seqs[th][c] = append(nw.seqs[th][c], o)
+				}
+			}
+		}
+	}
+	for th, m := range old.deltas {
+		if nw.deltas[th] == nil {
+			nw.deltas[th] = map[string][]int64{}
+		}
+		for c, vs := range m {
+			have := map[int64]bool{}
+			for _, v := range nw.deltas[th][c] {
+				have[v] = true
+			}
+			for _, v := range vs {
+				if !have[v] {
+					nw.deltas[th][c] = append(nw.deltas[th][c], v)
+				}
+			}
+			sort.Slice(nw.deltas[th][c], func(a, b int) bool { return nw.deltas[th][c][a] < nw.deltas[th][c][b] })
+		}
+	}
+}
+
+// diversify reorders traces so that a bounded prefix of the combination space
+// sees every behaviour class early: unfinished traces first, then round-robin
+// over groups of traces with the same synchronisation skeleton (locks, atomic
+// deltas, user events, channel operations).
+func diversify(tt []*ThreadTrace) []*ThreadTrace {
+	skel := func(t *ThreadTrace) string {
+		var sb strings.Builder
+		sb.WriteString(t.Status)
+		for _, e := range t.Events {
+			switch e.Kind {
+			case "acq", "rel", "user", "chan-close", "chan-recv", "wg-add", "wg-wait":
+				sb.WriteString("|" + e.Kind + e.Obj + e.Mode + strings.Join(e.Args, ","))
+			case "rmw":
+				sb.WriteString(fmt.Sprintf("|rmw%s%+d", e.Obj, e.Delta))
+			}
+		}
+		return sb.String()
+	}
+	groups := map[string][]*ThreadTrace{}
+	var order []string
+	for _, t := range tt {
+		k := skel(t)
+		if _, ok := groups[k]; !ok {
+			order = append(order, k)
+		}
+		groups[k] = append(groups[k], t)
+	}
+	var out []*ThreadTrace
+	for round := 0; len(out) < len(tt); round++ {
+		for _, k := range order {
+			if round < len(groups[k]) {
+				out = append(out, groups[k][round])
+			}
+		}
+	}
+	return out
 }
